@@ -73,6 +73,13 @@ fn exprs() -> Vec<String> {
             "a + 1e-7",
             "a + 123456789012345678901234567890",
             "a + 0.1 + 0.2",
+            "a + 0xFFFFFFFFFFFFFFFFFF",
+            "a + 0x7fffffffffffffff + 0X10",
+            "a + 07777777777777777777777777",
+            "a + 017 + 0o1",
+            "a + 0xg",
+            "a + 0x1z",
+            "a + 0b1",
             "1 .p",
             "(1).p",
             "1.5.p",
@@ -169,6 +176,16 @@ const TAGS: &[&str] = &[
     "<wxs module=\"w\">exports.f = function(x){ return x < 1 ? '<a' : '{{' + x }</wxs><text>{{ w.f(a) }}</text>",
     "<view wx:for=\"{{ list }}\" wx:key=\"k\" bind:tap=\"h1\" data-i=\"{{ index }}\" mark:k=\"{{ item.k }}\" class=\"c{{ index }}\">{{ item.v }}</view>",
     "<block wx:for=\"{{ list }}\"><block wx:if=\"{{ item.v }}\"><text>{{ item.v }}</text></block><block wx:else><text>none{{ index }}</text></block></block>",
+    // text runs separated only by a node that is hoisted out of the content tree or dropped by
+    // error recovery: they stay separate text nodes
+    "x<wxs module=\"w\">exports.f = function(){ return 1 }</wxs>{{ a }}<template name=\"q\">Q</template>y{{ b }}",
+    "<view>p{{ a }}<template name=\"q\">Q</template>{{ b }}<import src=\"/c\"/>z</view>",
+    "hello</b>{{ a }}<view>x</i>{{ b }}</view>",
+    "<template name=\"t\">{{ x }}:{{ a }}</template><template is=\"t\" data=x/><template is=t data=\"{{ a }}\"/><view title=a data-x=b{{ c }}>{{ d }}</view>",
+    // (... and must not join into a binding)
+    "a{<wxs module=\"w\">exports.f = 1</wxs>{ b }}c<view>p{<template name=\"q\">Q</template>{{ a }}</view>",
+    "<text>{{ a }}{<import src=\"/c\"/>{{ b }}</text>{</b>{ c }}",
+    "x<import/>{{ a }}<wxs>1</wxs>y<template name=\"q\">1</template>{{ b }}<template name=\"q\">2</template>{{ c }}",
 ];
 
 fn tag_variants() -> u64 {
